@@ -211,7 +211,7 @@ def _step_run(params, values):
     return recs, [_table(r), raised]
 
 
-HOPS = ["push", "at", "enable2", "enableOnly2", "disable2", "getRules"]
+HOPS = ["push", "at", "enable2", "enableOnly2", "disable2", "getRules", "before", "after"]
 
 
 def _hist_free(params):
